@@ -29,6 +29,8 @@ def items(a, thorough):
         out.append(dict(name='bmc/k=3/gap<4000', entry='c13_bmc', args=[4000, 3, 0, 0], timeout=to, loop_limit=70, budget_s=900))
     out.append(dict(name='bmc/k=3/gap<2500', entry='c13_bmc', args=[2500, 3, 0, 0], timeout=to, loop_limit=70, budget_s=300))
     out.append(dict(name='bmc/k=2/gap<9000', entry='c13_bmc', args=[9000, 2, 0, 0], timeout=to, loop_limit=70, budget_s=120))
+    for it in out:
+        it['quick_ms'] = 20000
     return out
 
 
